@@ -290,10 +290,16 @@ def build(cls, cfg, running, sleep):
 
 
 def run_sequence(cls, cfg, running, sleep, seq, table=None):
-    """Returns (violation tuple or None, observation list).  Stops at the first divergence."""
+    """Returns (violation tuple or None, observation list).  Stops at the first divergence.
+
+    In the sleep != 0 space the updates are delivered the way an ophyd signal delivers them (old_value = the previously
+    delivered value, at first the value the signal was built with; obj, sub_type): the documented conditions are about
+    `value` alone, so an update that repeats the old value is evaluated like any other."""
     import asyncio
 
     s, re = build(cls, cfg, running, sleep)
+    ophyd_style = sleep != 0
+    prev = s._sig.value if hasattr(s, "_sig") else None
     loop = re._loop
     t = False
     pending = None  # the asyncio.Event handed to request_suspend for the current episode (running mode)
@@ -301,7 +307,11 @@ def run_sequence(cls, cfg, running, sleep, seq, table=None):
     obs = []
     for i, v in enumerate(seq):
         S_, R_ = table[v] if table is not None else doc_sr(cls, cfg, v)
-        s(value=v, timestamp=0.0)
+        if ophyd_style:
+            s(value=v, old_value=prev, timestamp=0.0, obj=s._sig, sub_type="value")
+            prev = v
+        else:
+            s(value=v, timestamp=0.0)
         t2 = s.tripped
         req = len(re.calls) - nreq
         rel = len(loop.later) - nrel
